@@ -449,6 +449,33 @@ func runSorts(r *kit.Run, thorough bool) {
 			checkSort(r, st, l)
 			lists++
 		}
+		// lengths around the cut-offs of sort.Sort (insertion sort up to 12, ninther
+		// from 50): reversed and organ-pipe orders of the first / a strided n ids
+		for _, n := range []int{3, 11, 12, 13, 14, 49, 50, 51, 64} {
+			if n > len(long) {
+				continue
+			}
+			step := len(long) / n
+			asc := make([]Triple, n)
+			for i := range asc {
+				asc[i] = long[i*step]
+			}
+			rev := make([]Triple, n)
+			pipe := make([]Triple, 0, n)
+			for i := range asc {
+				rev[i] = asc[n-1-i]
+			}
+			for i := 0; i < n; i += 2 {
+				pipe = append(pipe, asc[i])
+			}
+			for i := n - 1 - (n % 2); i > 0; i -= 2 {
+				pipe = append(pipe, asc[i])
+			}
+			checkSort(r, st, rev)
+			checkSort(r, st, pipe)
+			checkSort(r, st, append(append([]Triple{}, rev...), asc...)) // every id twice
+			lists += 3
+		}
 		r.Set("sort_lists_"+st, lists)
 	}
 	r.Sample(Case{Family: "sort", IDType: "elements", List: []Triple{elemPool[9], elemPool[3], elemPool[6], elemPool[0], elemPool[5]}})
